@@ -161,6 +161,22 @@ def random_concrete(scen, rnd):
     return s
 
 
+SETLIKE = ('g_to_vec', 'g_roots', 'g_leaves', 'g_orphans', 'g_iter')
+
+
+def canon_obs(scen, obs):
+    """order-insensitive form of set-like container views (their order is the hash map's)"""
+    if not isinstance(obs, list) or 'steps' not in scen:
+        return obs
+    if len(obs) == 2 and len(scen['steps']) > 2 and all(isinstance(o, list) for o in obs):
+        return [canon_obs(scen, o) for o in obs]          # a pair of runs (C15)
+    out = list(obs)
+    for i, st in enumerate(scen['steps']):
+        if i < len(out) and st[0] in SETLIKE and isinstance(out[i], list):
+            out[i] = sorted(out[i], key=lambda x: json.dumps(x, sort_keys=True))
+    return out
+
+
 def validate(rep, native, scens, driver_setup=None, symrun=None, natrun=None):
     """same concrete scenarios through executor and native build; any difference indicts the engine"""
     nat = [natrun(native, s) for s in scens] if natrun else native.run(scens)
@@ -177,9 +193,14 @@ def validate(rep, native, scens, driver_setup=None, symrun=None, natrun=None):
                 res['obs'], _ = symrun(ex, scen)
             else:
                 res['obs'], _ = default_symrun(ex, scen, driver_setup)
-        st = explore(ex, h, max_paths=1)
-        sym = json_norm(res['obs'])
-        return {'ok': obs_equal(sym, nobs), 'scen': scen, 'sym': sym, 'nat': nobs}
+        seen = []
+
+        def h2(ex):
+            h(ex)
+            seen.append(json_norm(res['obs']))
+        explore(ex, h2, max_paths=400)
+        ok = any(obs_equal(canon_obs(scen, sym), canon_obs(scen, nobs)) for sym in seen)
+        return {'ok': ok, 'scen': scen, 'sym': seen[0], 'nat': nobs, 'paths_tried': len(seen)}
     for r in parallel(list(zip(scens, nat)), vworker):
         if 'inconclusive' in r:
             rep.inconclusive.append(r)
